@@ -257,6 +257,39 @@ def finish(prop, tier, seed, results, known, wall, verbose):
             else:
                 print('NOTE: known finding %s no longer reproduces natively' % kf['native'])
             ev['coverage'].setdefault('known_findings_native', []).append({'name': kf['native'], 'still_fails': bool(still)})
+    # bounded stand-ins (thorough tier): clauses no contract within reach decides, checked natively on a stated grid;
+    # labelled bounded, never counted as proved; a failure is a real failing input
+    standin_viol = []
+    if tier == 'thorough':
+        from engine import replay
+        try:
+            from contracts.standins import STANDINS
+        except Exception as e:
+            STANDINS = {}
+            undecided.append('bounded stand-ins could not be loaded: %s' % e)
+        for nm_, bound_, src_ in STANDINS.get(prop, ()):
+            try:
+                bad_, out_ = replay.run_native(src_, timeout=600)
+            except Exception as e:
+                bad_, out_ = None, str(e)
+            ev['coverage'].setdefault('bounded_standins', []).append(
+                {'clause': nm_, 'bound': bound_, 'level': 'bounded (not counted as proved)', 'held': (bad_ is False), 'output': (out_ or '')[-400:]})
+            if bad_:
+                d_ = os.path.join(os.environ.get('VERIF_OUT', VERIF), 'replays', prop)
+                os.makedirs(d_, exist_ok=True)
+                rp_ = os.path.join(d_, 'bounded_' + re.sub(r'[^A-Za-z0-9]+', '_', nm_)[:80] + '.json')
+                with open(rp_, 'w') as fh:
+                    json.dump({'property': prop, 'obligation': 'bounded stand-in: ' + nm_, 'bound': bound_,
+                               'native': {'program': src_, 'reproduced': True, 'output': out_[-2000:]}}, fh, indent=1)
+                standin_viol.append((nm_, rp_, out_))
+            elif bad_ is None:
+                undecided.append('bounded stand-in %s could not be run: %s' % (nm_, (out_ or '')[:200]))
+    if standin_viol:
+        code = 1
+        ev['violations'] = len(viol) + len(standin_viol)
+        for nm_, rp_, out_ in standin_viol:
+            print('VIOLATION property=%s replay=%s' % (prop, rp_))
+            print('  bounded stand-in failed natively: %s: %s' % (nm_, (out_ or '').strip().splitlines()[-1][:300] if out_ else ''))
     if viol:
         code = 1
         from engine import replay
@@ -268,7 +301,7 @@ def finish(prop, tier, seed, results, known, wall, verbose):
             path, reproduced = replay.write_replay(prop, o)
             print('VIOLATION property=%s replay=%s%s' % (prop, path, '' if reproduced else ' no-failing-input-found'))
             print('  obligation %s failed; model %s' % (o['name'], json.dumps(o['model'])))
-    elif undecided:
+    elif undecided and not standin_viol:
         code = 2
         for u in undecided:
             print('UNDECIDED: ' + u)
@@ -294,7 +327,7 @@ def finish(prop, tier, seed, results, known, wall, verbose):
         for f in funcs:
             print('  %-70s paths=%d obligations=%d %.1fs' % (f['contract'], f['paths'], f['obligations'], f['secs']))
     print('%s: %d obligations, %d discharged, %d violations, %d undecided, %.1fs' % (
-        prop, n_obl, n_dis, len(viol), len(undecided), wall))
+        prop, n_obl, n_dis, len(viol) + len(standin_viol), len(undecided), wall))
     return code
 
 
